@@ -292,3 +292,101 @@ def gen_case(rng, n_ops=6, rel_rate=0.2, flavour=None):
     _, heap0 = ic.resolve_table(table)
     ops, groups = gen_history(rng, table, len(heap0), n_ops, rel_rate)
     return sanitize({"table": table, "ops": ops, "nd": len(heap0), "groups": groups})
+
+
+# ------------------------------------------------------------------ plain subclasses
+def plain_table(rng):
+    """K1 leaf; K2 spec class; K4 = plain subclass of K2 overriding defaults by class
+    attributes (scalar and mutable); K5 = plain subclass of K4 (second level)"""
+    decl = lambda: rng.choice(["plain", "Attr"])
+    k1 = {"id": 1, "eager": True, "frozen": False, "key": None, "attrs": [
+        {"aid": 1, "ty": INT, "default": V(0), "decl": "plain"}]}
+    lst = rng.choice([(("list", [V(1), V(2)]), None), (None, ("list", [V(3)]))])
+    k2 = {"id": 2, "eager": rng.random() < 0.5, "frozen": False, "attrs": [
+        {"aid": 1, "ty": INT, "default": V(1), "decl": decl(), "prepare": rng.choice([None, None, ("addint", 1)])},
+        {"aid": 2, "ty": STR, "default": rng.choice([None, S(7)]), "decl": decl()},
+        {"aid": 50, "ty": ("list", INT), "default": lst[0], "factory": lst[1], "decl": "Attr"},
+        {"aid": 3, "ty": ("opt", INT), "default": rng.choice([None, NONE]), "decl": "Attr", "inv_by": rng.choice([[], [1]])},
+    ]}
+    mid = [{"aid": 1, "inherited": True, "override": V(7)}]
+    if rng.random() < 0.7:
+        mid.append({"aid": 50, "inherited": True, "override": ("list", [V(9), V(0)])})
+    if rng.random() < 0.4:
+        mid.append({"aid": 2, "inherited": True, "override": S(8)})
+    k4 = {"id": 4, "base": 2, "kind": "plain", "attrs": mid}
+    leaf = []
+    if rng.random() < 0.5:
+        leaf.append({"aid": 2, "inherited": True, "override": S(0)})
+    if rng.random() < 0.3:
+        leaf.append({"aid": 1, "inherited": True, "override": V(5)})
+    k5 = {"id": 5, "base": 4, "kind": "plain", "attrs": leaf}
+    return [k1, k2, k4, k5]
+
+
+def plain_case(rng, n_ops=6):
+    """instances of the plain subclasses (and of the spec class itself): change attributes,
+    then reset_<a> (copy / in place) / del / reset() / with_ / update"""
+    table = plain_table(rng)
+    _, heap0 = ic.resolve_table(table)
+    nd = len(heap0)
+    ops, n = [], nd
+    attrs = table[1]["attrs"]
+
+    def val(a):
+        t = a["ty"]
+        if t == INT:
+            return V(rng.choice([0, 2, 3]))
+        if t == STR:
+            return S(rng.choice([0, 7, 9]))
+        if t == ("opt", INT):
+            return rng.choice([NONE, V(4)])
+        return None
+    cid = rng.choice([4, 5, 5, 4, 2])
+    kw = []
+    for a in attrs:
+        if rng.random() < 0.4:
+            if a["ty"][0] == "list":
+                ops.append((("alloc", ("list", [V(rng.choice([0, 1, 2])) for _ in range(rng.choice([0, 1, 2]))])), None))
+                kw.append((a["aid"], ("root", n)))
+                n += 1
+            else:
+                kw.append((a["aid"], val(a)))
+    ops.append((("construct", cid, None, kw), None))
+    x = n
+    n += 1
+    for _ in range(n_ops):
+        r = rng.random()
+        a = rng.choice(attrs)
+        inplace = rng.random() < 0.5
+        if r < 0.30:
+            h = {"inplace": inplace, "if_": rng.random() > 0.05}
+            ops.append((("helper", x, ("reset", a["aid"]), h), None))
+            if not inplace:
+                x_new = n
+            n += 1
+            if not inplace and rng.random() < 0.5:
+                x = x_new
+        elif r < 0.42:
+            ops.append((("delattr", x, a["aid"]), None))
+            n += 1
+        elif r < 0.57:
+            ops.append((("helper", x, ("reset_top", None), {"inplace": inplace, "if_": True}), None))
+            if not inplace and rng.random() < 0.5:
+                x = n
+            n += 1
+        elif a["ty"][0] == "list":
+            ops.append((("alloc", ("list", [V(rng.choice([0, 1, 2]))])), None))
+            n += 1
+            ops.append((("helper", x, ("with", a["aid"]), {"inplace": inplace, "if_": True, "pos": [("root", n - 1)]}), None))
+            if not inplace:
+                x = n
+            n += 1
+        elif r < 0.8:
+            ops.append((("helper", x, ("with", a["aid"]), {"inplace": inplace, "if_": True, "pos": [val(a)]}), None))
+            if not inplace:
+                x = n
+            n += 1
+        else:
+            ops.append((("setattr", x, a["aid"], val(a)), None))
+            n += 1
+    return sanitize({"table": table, "ops": ops, "nd": nd, "groups": []})
